@@ -82,47 +82,38 @@ theorem T1_branch_sizes_bounded (kf : KF) (hkf : KFOK kf) (db : List DbNode) (cs
         p.node.items ≠ [] ∧ p.node.items.head?.map (·.key) = some p.sep ∧
           (1 ≤ p.node.pc ∧ p.node.pc ≤ p.node.items.length) ∧ (MERGE ≤ p.node.body ∨ p.cutoff = none) ∧
           (kf.canon = true → p.node.body ≤ BODY) := by
-  obtain ⟨out, rel, e, _, h⟩ := runWorker_spec hkf db cs lo hdb hcs hfirst
+  obtain ⟨out, rel, e, _, h, _⟩ := runWorker_spec hkf db cs lo hdb hcs hfirst
   refine ⟨out, rel, e, ?_⟩
   intro p hp
   have g := h p hp
   exact ⟨g.ne, g.sep, g.pc, g.lower, g.upper⟩
 
-/-- **T1.branch_separators_chain** — in the new level the separator of every produced node is a correct lower bound
-that separates it from everything in front of it: it is the node's first key (at most every key of the node) and every
-key of every node in front of it — untouched or produced — is strictly below it. -/
+/-- **T1.branch_separators_chain** — in the new level (untouched old nodes and produced nodes, left to right) the
+separators are correct bounds between the nodes: every node's separator is at most each of its keys, and every key of a
+node is strictly below the separator of EVERY node behind it — across merges, skipped nodes and nodes that disappear.
+(The separator of a produced node is its first key, `T1_branch_sizes_bounded`.) -/
 theorem T1_branch_separators_chain (kf : KF) (hkf : KFOK kf) (db : List DbNode) (cs : List (Nat × Option Nat)) (lo : Nat)
     (hdb : DbOK kf db) (hcs : ChOK lo cs) (hfirst : ∀ l, db.head? = some l → l.sep ≤ lo) :
     ∃ out rel, runWorker kf db cs = some (out, rel) ∧
-      ∀ A p B, out = A ++ OutNode.new p :: B →
-        (∀ e ∈ flatOut A, e.key < p.sep) ∧ (∀ it ∈ p.node.items, p.sep ≤ it.key) := by
-  obtain ⟨out, rel, e, h1, h2⟩ := runWorker_spec hkf db cs lo hdb hcs hfirst
-  refine ⟨out, rel, e, ?_⟩
-  intro A p B hout
-  have hs : Sorted (flatOut out) := by rw [h1]; exact applyAll_sorted hdb.sorted _
-  have g := h2 p (by rw [hout]; simp)
-  rw [hout] at hs
-  simp only [flatOut_append] at hs
-  have hitems : flatOut (OutNode.new p :: B) = ents p.node.items ++ flatOut B := rfl
-  rw [hitems] at hs
-  obtain ⟨f, r, hfr⟩ := List.exists_cons_of_ne_nil g.ne
-  have hsep : f.key = p.sep := by
-    have := g.sep
-    rw [hfr] at this
-    simpa using this
-  have hlt := (List.pairwise_append.1 hs).2.2
-  have hsp : Sorted (ents p.node.items) := (List.pairwise_append.1 (List.pairwise_append.1 hs).2.1).1
-  constructor
-  · intro x hx
-    have := hlt x hx f.ent (by rw [hfr]; simp)
-    simp only [Item.ent] at this
-    omega
-  · intro it hit
-    rw [hfr] at hit hsp
-    rcases List.mem_cons.1 hit with h | h
+      out.Pairwise (fun o o' => ∀ e ∈ ents o.items, e.key < o'.sep) ∧
+      ∀ o ∈ out, ∀ it ∈ o.items, o.sep ≤ it.key := by
+  obtain ⟨out, rel, e, _, h2, h3, h4⟩ := runWorker_spec hkf db cs lo hdb hcs hfirst
+  refine ⟨out, rel, e, h3, ?_⟩
+  intro o ho it hit
+  cases o with
+  | old l => exact (h4 l ho).2 it hit
+  | new p =>
+    have g := h2 p ho
+    show p.sep ≤ it.key
+    obtain ⟨f0, rr, hfr⟩ := List.exists_cons_of_ne_nil g.ne
+    have hsep : f0.key = p.sep := by
+      have := g.sep; rw [hfr] at this; simpa using this
+    have hit' : it ∈ f0 :: rr := by rw [← hfr]; exact hit
+    rcases List.mem_cons.1 hit' with h | h
     · rw [h]; omega
-    · have := (List.pairwise_cons.1 hsp).1 it.ent (List.mem_map.2 ⟨it, h, rfl⟩)
-      simp only [Item.ent] at this
+    · have hs := g.sorted
+      simp only [Node.keys, hfr, List.map_cons] at hs
+      have := (List.pairwise_cons.1 hs).1 it.key (List.mem_map.2 ⟨it, h, rfl⟩)
       omega
 
 /-- the constants the model uses are the ones of the Rust sources (`Generated/Constants.lean`) and the relations the
@@ -135,9 +126,6 @@ theorem T1_const_branch_thresholds :
   decide
 
 /-! ## the theorems are sharp: three kernel-checked counterexamples -/
-
-/-- the `(key, page number)` pairs of a level -/
-def kps (out : List OutNode) : List (Nat × Nat) := (flatOut out).map fun e => (e.key, e.val)
 
 /-- **F20, kernel-checked** — the code as it is (`kf.canon = false`): a well-formed level of one node (the all-zero key
 in front of the small integers 1 … 120: prefix 249 bits, the first separator is stored with 0 bits), one inserted key
